@@ -58,6 +58,12 @@ def _run_chunk(args):
     out = []
     for seed in seeds:
         t0 = time.time()
+        kill = os.environ.get("VERIF_TEST_KILL_SEED")        # self-test of the dead-worker path: the worker running this seed exits abruptly (once, or always with a trailing '!')
+        if kill and kill.rstrip("!") == str(seed):
+            marker = "/tmp/verif-kill-%s" % kill.rstrip("!")
+            if kill.endswith("!") or not os.path.exists(marker):
+                open(marker, "w").close()
+                os._exit(3)
         faulthandler.dump_traceback_later(wall_cap, exit=True)
         try:
             r = mod.run_seed(seed, tier)
@@ -69,6 +75,54 @@ def _run_chunk(args):
         r["wall"] = time.time() - t0
         out.append(r)
     return out
+
+
+def _isolated_child(conn, modname, seed, tier, wall_cap):
+    _worker_init(modname)
+    try:
+        conn.send(_run_chunk(([seed], tier, wall_cap)))
+    finally:
+        conn.close()
+
+
+def _run_isolated(mod, seeds, tier, wall_cap, workers, ctx, deadline):
+    """One forked process per seed; returns (results, seeds whose process died)."""
+    todo, active, out, died = list(seeds), [], [], []
+    while (todo or active) and time.time() < deadline:
+        while todo and len(active) < workers:
+            sd = todo.pop(0)
+            pr, pw = ctx.Pipe(duplex=False)
+            p = ctx.Process(target=_isolated_child, args=(pw, mod.__name__, sd, tier, wall_cap))
+            p.start()
+            pw.close()
+            active.append((p, pr, sd))
+        still = []
+        for p, pr, sd in active:
+            if pr.poll(0.01):
+                try:
+                    out.extend(pr.recv())
+                except (EOFError, OSError):
+                    died.append(sd)
+                p.join(5)
+            elif not p.is_alive():
+                if pr.poll(0.05):
+                    try:
+                        out.extend(pr.recv())
+                    except (EOFError, OSError):
+                        died.append(sd)
+                else:
+                    died.append(sd)
+                p.join(1)
+            else:
+                still.append((p, pr, sd))
+        active = still
+        if active and len(active) >= workers or not todo:
+            time.sleep(0.02)
+    for p, pr, sd in active:
+        p.terminate()
+        died.append(sd)
+    died.extend(todo)
+    return out, died
 
 
 # ------------------------------------------------------------------------------------
@@ -341,21 +395,34 @@ def main(mod, argv=None):
     dead = 0
     ctx = multiprocessing.get_context("fork")
     import importlib
+    deadline = time.time() + getattr(mod, "BATCH_CAP", 3 * 3600)
+    unfinished = []
     with concurrent.futures.ProcessPoolExecutor(max_workers=a.workers, mp_context=ctx,
                                                 initializer=_worker_init, initargs=(mod.__name__,)) as ex:
         futs = {ex.submit(_run_chunk, c): c for c in chunks}
         try:
-            for fu in concurrent.futures.as_completed(futs, timeout=getattr(mod, "BATCH_CAP", 3 * 3600)):
+            for fu in concurrent.futures.as_completed(futs, timeout=max(1.0, deadline - time.time())):
                 try:
                     results.extend(fu.result())
-                except BaseException as e:
-                    dead += len(futs[fu][0])
-                    print("HARNESS: worker died on seeds %s: %r" % (futs[fu][0], e), flush=True)
+                except BaseException:
+                    unfinished.append(futs[fu])
         except concurrent.futures.TimeoutError:
             print("HARNESS: batch wall cap reached", flush=True)
             dead += sum(len(c[0]) for f, c in futs.items() if not f.done())
             for f in futs:
                 f.cancel()
+            unfinished = []
+    if unfinished:
+        # A worker that dies (wall cap of one seed reached -> faulthandler exits the process; or a crash) breaks the whole pool and fails every
+        # pending future.  The seeds that did not finish are re-run with ONE PROCESS PER SEED, so that a seed that kills its process again takes
+        # nothing else with it; such a seed is counted as a harness error (never as a pass).
+        todo = [sd for c in unfinished for sd in c[0]]
+        print("HARNESS: a worker died; re-running %d unfinished seeds in one process each" % len(todo), flush=True)
+        res2, died = _run_isolated(mod, todo, tier, wall_cap, max(1, a.workers // 2), ctx, deadline)
+        results.extend(res2)
+        if died:
+            dead += len(died)
+            print("HARNESS: %d seeds killed their process again: %s" % (len(died), died[:8]), flush=True)
     results.sort(key=lambda r: r["seed"])
     wall_search = time.time() - t_start
 
@@ -435,6 +502,8 @@ def main(mod, argv=None):
     frac = (len(harness) + dead) / max(1, nres + dead)
     if frac > 0.02 and exit_code == EXIT_OK:
         exit_code = EXIT_HARNESS
+    if dead and exit_code == EXIT_OK:
+        exit_code = EXIT_HARNESS      # a seed that ran into the wall cap / killed its process twice is never a pass
     if nres == 0:
         exit_code = EXIT_HARNESS
 
